@@ -531,13 +531,27 @@ func TestVerifC17(t *testing.T) {
 			}
 			if c.Idx%8 == 3 {
 				// the buffered wrapper: every order of start / stop / provide-once on one or two kept keys inside one batch
-				c.In = append(c.In, fmt.Sprintf("sp nkeys=8 r=%d interval=3600 swarm=%d workers=%s buffered=1 batch=8 strict=1", []int{2, 3}[r.Intn(2)], []int{16, 24}[r.Intn(2)], []string{"default", "2"}[r.Intn(2)]))
+				c.In = append(c.In, fmt.Sprintf("sp nkeys=8 r=%d interval=3600 swarm=%d workers=%s buffered=1 batch=8 strict=1", []int{3, 4}[r.Intn(2)], []int{16, 24}[r.Intn(2)], []string{"default", "2"}[r.Intn(2)]))
 				c.In = append(c.In, "start keys=0,3 force=0", "start keys=1,2,5 force=0", "advance cycles=1")
-				for b := 0; b < r.Range(3, 5); b++ {
+				for b := 0; b < r.Range(5, 8); b++ {
 					k1, k2 := []int{1, 2, 5, 6}[r.Intn(4)], []int{1, 2, 5, 6}[r.Intn(4)]
 					var ops []string
-					for j := 0; j < r.Range(2, 6); j++ {
-						ops = append(ops, fmt.Sprintf("%c%d", "sSxoxo"[r.Intn(6)], []int{k1, k1, k2}[r.Intn(3)]))
+					if r.Bool() {
+						// the short patterns whose members have to meet in one batch to matter (how many operations the
+						// wrapper's worker finds queued when it wakes is up to the scheduler): a kept key stopped and then
+						// provided once, started and stopped, stopped and started …
+						c.In = append(c.In, fmt.Sprintf("start keys=%d,%d force=0", k1, k2))
+						pats := [][]string{{"x", "o"}, {"x", "o", "x"}, {"s", "x"}, {"x", "s"}, {"o", "x"}, {"x", "S"}, {"x", "o", "o"}}
+						for rep := 0; rep < r.Range(1, 3); rep++ {
+							k := []int{k1, k2}[r.Intn(2)]
+							for _, o := range pats[r.Intn(len(pats))] {
+								ops = append(ops, fmt.Sprintf("%s%d", o, k))
+							}
+						}
+					} else {
+						for j := 0; j < r.Range(2, 6); j++ {
+							ops = append(ops, fmt.Sprintf("%c%d", "sSxoxo"[r.Intn(6)], []int{k1, k1, k2}[r.Intn(3)]))
+						}
 					}
 					c.In = append(c.In, "batch ops="+strings.Join(ops, ","))
 					if r.Bool() {
@@ -556,7 +570,8 @@ func TestVerifC17(t *testing.T) {
 			if strict {
 				nkeys = r.Range(6, 12)
 				sizes = []int{16, 24, 32, 48, 64}
-				rf = []int{2, 3}[r.Intn(2)]
+				// (not 2: with lookups that return two peers the exploration's give-up heuristic misfires, known finding F22)
+				rf = []int{3, 4}[r.Intn(2)]
 			}
 			st := 0
 			if strict {
